@@ -34,11 +34,29 @@ STRS = ["", "a", "b", "ab", "ba", "Ã©", "key", "key1", "0", "1", "-1", "x y", "æ
 # ---------------------------------------------------------------------------
 # generators
 
-def gen_items(rng, n):
+LONG_N = [4096, 4097, 5000, 65536, 70000]
+LONG_TAILS = ["", "A", "B", "AB", "|7"]
+
+
+def expand(cell):
+    """["l", ch, n, tail] stands for the long str ch * n + tail."""
+    return cell[1] * cell[2] + cell[3] if isinstance(cell, list) else cell
+
+
+def desc(v):
+    if isinstance(v, str) and len(v) > 200:
+        return "\x00long:%d:%s:%s" % (len(v), v[:8], v[-8:])
+    return v
+
+
+def gen_items(rng, n, long_p=0.0):
     out, seen = [], set()
     while len(out) < n:
         c = rng.random()
-        if c < 0.35:
+        if rng.random() < long_p:
+            # long keys (4096 .. 70000 characters) sharing long prefixes
+            v = ["l", "x", rng.choice(LONG_N), rng.choice(LONG_TAILS)]
+        elif c < 0.35:
             v = ["i", rng.randint(-5, 40)]
         elif c < 0.5:
             v = ["i", rng.choice([2 ** 31 - 1, 2 ** 31, 2 ** 32, 2 ** 32 + 1, -2 ** 31, 2 ** 62, -2 ** 62, 10 ** 9 + 7]) + rng.randint(0, 3)]
@@ -46,7 +64,7 @@ def gen_items(rng, n):
             v = ["s", rng.choice(STRS)]
         else:
             v = ["s", "".join(rng.choice("abcXYZ019_-Ã©") for _ in range(rng.randint(1, 10)))]
-        k = (v[0], v[1])
+        k = tuple(v)
         if k not in seen:
             seen.add(k)
             out.append(v)
@@ -68,7 +86,7 @@ def gen_cms(rng):
     depth = rng.randint(1, 8)
     width = rng.choice(WIDTHS)
     nit = rng.randint(1, 10)
-    items = gen_items(rng, nit)
+    items = gen_items(rng, nit, long_p=rng.choice([0.0, 0.0, 0.0, 0.3]))
     nops = rng.randint(1, 14 if width >= 4096 else 40)
     ops = []
     live = rng.randint(1, nit)          # items beyond `live` are queried but never inserted
@@ -86,7 +104,7 @@ def gen_cms(rng):
 
 def gen_counter(rng):
     nit = rng.randint(1, 10)
-    items = gen_items(rng, nit)
+    items = gen_items(rng, nit, long_p=rng.choice([0.0, 0.0, 0.4]))
     bound = rng.choice([-1, 0, 1, 1, 2, 2, 3, 4, 5, nit - 1, nit, nit, nit + 1, 30000])
     nops = rng.randint(1, 60)
     batches = rng.random() < 0.3
@@ -106,6 +124,9 @@ def gen_pipeline(rng):
                  else [rng.randint(-3, 12) for _ in range(rng.randint(1, 8))]) for c in cols}
     high = {c: rng.random() < 0.3 for c in cols}
     fresh = [0]
+    for c in cols:
+        if kinds[c] == "s" and rng.random() < 0.3:       # some long cells sharing long prefixes
+            pools[c] += [["l", "x", rng.choice(LONG_N), rng.choice(LONG_TAILS)] for _ in range(rng.randint(2, 4))]
 
     def cell(c):
         if high[c] and rng.random() < 0.7:
@@ -126,6 +147,7 @@ def pipe_streams(case):
         ids, ends, names = [], [], {}
         for b in case["batches"]:
             for v in b[col]:
+                v = desc(expand(v))
                 k = ("s" if isinstance(v, str) else "i", v)
                 if k not in names:
                     names[k] = len(names)
@@ -297,7 +319,8 @@ def gen_scale(rng, tier):
         bound = rng.choice([50, 1000, 30000])
         specs.append({"kind": "scale_counter", "bound": bound, "n_distinct": bound + off,
                       "n_items": min(10 ** 5, max(rng.choice([10 ** 4, 3 * 10 ** 4, 10 ** 5]), 3 * bound)), "seed": rng.randint(0, 10 ** 9),
-                      "mix": rng.choice(["mixed", "int", "str"]), "batch": (tier != "quick" and k >= 3), "skew": rng.random() < 0.3})
+                      "mix": rng.choice(["mixed", "int", "str"]), "batch": (tier != "quick" and k >= 3), "skew": rng.random() < 0.3,
+                      "long": rng.choice([0, 6, 12])})
     modes = ["above", "below"] if tier == "quick" else ["above", "above", "below", "far"]
     for md in modes:
         specs.append({"kind": "scale_pipeline", "seed": rng.randint(0, 10 ** 6), "lo": 290000, "hi": 310000, "mode": md, "tail": 2000})
@@ -627,6 +650,9 @@ def counter_clause(case, r, verdict, d):
             stream += [op[1]] if op[0] == "add" else op[1]
         c = {kk: v for kk, v in r["obs"][k]}
         single = all(op[0] == "add" for op in case["ops"][:k + 1])
+        if any(x >= len(case["items"]) for x in c):
+            return ("C15_b_check (Coq) fails after op %d: default_counter tracks a key that was never fed (the fed key was altered), "
+                    "so it counts something that occurred 0 times (C15_b_no_over): %s" % (k, sorted(c.items())))
         if any(v > stream.count(x) or v < 1 for x, v in c.items()):
             return "C15_b_check (Coq) fails after op %d: the counter over-counts (C15_b_no_over): %s" % (k, sorted(c.items()))
         if len(set(stream)) < case["bound"] and any(c.get(x, 0) != stream.count(x) for x in set(stream)):
